@@ -681,3 +681,65 @@ def run(ctx):
     c18.check_ctx_args(P, r9)
     r10 = ctx.rule("C09.R10", "in a named network namespace the revocation list and trust anchors come from that namespace's files")
     c18.check_ns_templates(P, r10)
+    r12 = ctx.rule("C09.R12", "the revocation list and the trust anchors are read whole (= C18.R12)")
+    c18.check_loader_reads_to_eof(P, r12)
+    r11 = ctx.rule("C09.R11", "the inherited list of peer names is a complete copy: the string-list container keeps its count in step with its elements")
+    check_slist_count(P, r11)
+
+
+def check_slist_count(P, rule):
+    """tls.peer_names travels from the server socket to every accepted connection as a clone of a string list.  The list
+    is an element array plus a count, and every reader (slist_len, slist_get, slist_has, the hostname set-up) trusts the
+    count: an element stored without the count being stored afterwards on the same path does not exist for them - a
+    clone whose count stays 0 is an empty set of names, which the handshake reads as 'nothing to check'."""
+    fns = [f for f in P.functions if f.file.endswith("common/slist.c")]
+    if not fns:
+        raise Broken("C09.R11: common/slist.c not analysed")
+    nst = 0
+    for f in sorted(fns, key=lambda g: g.name):
+        def elem_store(fn, lhs):
+            n = fn.nodes[fn._strip0(lhs)]
+            if n["k"] == "index":
+                b = fn.nodes[fn._strip0(n["base"])] if "base" in n else None
+                if b is None:
+                    for x in fn.walk(n["id"]):
+                        if x != n["id"] and fn.nodes[x]["k"] == "member":
+                            b = fn.nodes[x]
+                            break
+                return b is not None and b["k"] == "member" and b.get("field") == "elems"
+            return False
+        if not any(elem_store(f, lhs) for b, i, e, lhs, rhs, op in f.stores() if op == "="):
+            continue
+        nst += 1
+        rule.instance(f.qname)
+        bad = []
+
+        class Count(S.SeqRule):
+            max_depth = 1
+
+            def user0(s2, fn):
+                return False
+
+            def inline(s2, fn, nid, callee):
+                return callee.static and callee.file == f.file
+
+            def on_store(s2, fn, st, nid, lhs, rhs, op):
+                if op == "=" and elem_store(fn, lhs):
+                    return True
+                ln = fn.nodes[fn._strip0(lhs)]
+                if ln["k"] == "member" and ln.get("field") == "len":
+                    return False
+                return None
+
+            def on_exit(s2, fn, st, ret_nid, ret_cls, top):
+                if top and st.user and not bad:
+                    bad.append(ret_nid)
+        S.run(Count(P), f)
+        if bad:
+            rule.violation("%s:element-without-count" % f.name, "%s can return after storing an element of a list without storing the list's count afterwards: readers go by the "
+                           "count, so the element - for a clone, every inherited peer name - does not exist for them" % f.name,
+                           loc=f.loc(bad[0]) if bad[0] is not None else f.file)
+        else:
+            rule.ok("%s: every element store is followed by a store of the count" % f.qname, "path exploration")
+    if nst < 1:
+        raise Broken("C09.R11: no element store found in slist.c")
